@@ -139,6 +139,72 @@ def graceful_grid():
     return out
 
 
+def graceful_fault_grid():
+    """C06/C07/C09: a graceful control on a running child whose replacement fails to spawn, or whose own kill
+    or signal fails, with a wait-for-end (one or two waiters) or another control sent during the grace
+    period."""
+    out = []
+    i = 0
+    firsts = [kid(), kid(sig_delay=10), kid(self_at=15), kid(kill_fail=True), kid(sig_delay=10, kill_fail=True),
+              kid(sig_fail=True)]
+    seconds = [kid(fail=True), kid(kill_fail=True), kid(self_at=10)]
+    behind = [None, "to_wait", "to_wait2", "run", "start", "stop_with_signal", "try_restart_with_signal", "stop"]
+    for op in GRACEFUL:
+        for grace in GRACES:
+            for k1 in firsts:
+                for k2 in seconds:
+                    for b in behind:
+                        steps = [step(0, "start"), step(10, op, grace=grace, sig="TERM")]
+                        if b == "to_wait2":
+                            steps.append(step(15, "to_wait", waiters=2))
+                        elif b:
+                            steps.append(step(15, b, grace=10, sig="INT"))
+                        steps.append(step(150, "run"))
+                        steps.append(step(160, "start"))
+                        steps.append(step(200, "run"))
+                        out.append(finish("f%05d" % i, steps, [k1, k2, KID_NEVER, KID_NEVER], "graceful-fault-grid"))
+                        i += 1
+    return out
+
+
+RAW = ["raw_continue", "raw_delete", "raw_next_ending"]
+
+
+def raw_scripts(rng, n):
+    """C04/C09: the controls that only Job::control() sends on their own (the continuation of a graceful
+    try-restart, Delete without Stop, NextEnding at normal priority): each in every command state, then
+    among random controls."""
+    out = []
+    i = 0
+    for op in RAW:
+        for state in ("pending", "running", "finished", "grace-restart", "grace-stop"):
+            for k in KIDS_TIMING + KIDS_FAULT:
+                for k2 in (KID_NEVER, kid(fail=True), kid(self_at=10)):
+                    steps = []
+                    if state != "pending":
+                        steps.append(step(0, "start"))
+                    if state == "finished":
+                        steps.append(step(10, "stop"))
+                    if state == "grace-restart":
+                        steps.append(step(10, "try_restart_with_signal", grace=30, sig="TERM"))
+                    if state == "grace-stop":
+                        steps.append(step(10, "stop_with_signal", grace=30, sig="TERM"))
+                    steps.append(step(20, op))
+                    steps.append(step(20, "run"))
+                    steps.append(step(100, "to_wait"))
+                    steps.append(step(200, "run"))
+                    out.append(finish("r%05d" % i, steps, [KID_NEVER if state == "finished" else k, k2, k2, KID_NEVER],
+                                      "raw-controls"))
+                    i += 1
+    ops = PLAIN + GRACEFUL + RAW + RAW + ["start", "start", "run"]
+    ops = [o for o in ops if o not in ("delete", "delete_now")]
+    for j in range(n):
+        s = rand_script(rng, "R%05d" % j, ops, rng.randrange(2, 9), KIDS_TIMING + KIDS_FAULT, waiters=(1, 1, 2))
+        s["origin"] = "raw-controls"
+        out.append(s)
+    return out
+
+
 def order_scripts(rng, n):
     """C10: bursts mixing normal, high and urgent controls, with and without an armed timer."""
     out = []
